@@ -4,3 +4,6 @@ package parser
 
 // verifParserGet is a no-op unless built with the `verif` tag.
 func verifParserGet(*parser) {}
+
+// verifLex is a no-op unless built with the `verif` tag.
+func verifLex(int, int) {}
